@@ -307,6 +307,12 @@ def parallelize(  # noqa: C901
 
         return result_list
 
+    # An empty argument list has an empty result list. Neither a progress bar
+    # (its maximal value must be greater than its start value) nor child
+    # processes are needed.
+    if len(args_list) == 0:
+        return []
+
     # Create the progress bar if we are in an interactive session.
     pbar = ProgressBar(maxval=len(args_list), parent=ppbar).start()
 
